@@ -586,7 +586,7 @@ class C06(PropBase):
         # second pass of round 5: the other contexts whose unwinder goes through CfiStackWalker
         B["arm"] = dict(ctx="pc=%d,sp=%d,fp=%d,r4=11,r5=12,r0=14,lr=30" % (MODBASE + 0x100, SP, SP + 32),
                         toks=["+", "-", "@", "^", ".cfa", ".undef", "8", "-1", "sp", "r13", "r4", "r11", "r0", "nope", "4294967296"],
-                        targets=["r4:", "r11:", "fp:", "r14:", "lr:", "r0:", "nope:", "r15:", "sp:", "r12:"],
+                        targets=["r4:", "r11:", "fp:", "r13:", "r14:", "lr:", "r0:", "nope:", "r15:", "sp:", "r12:"],
                         heads=[".cfa: sp 16 + .ra: 1073742080", ".cfa: sp .ra: 1073742080", ".cfa: sp 16 + .ra: 4095",
                                ".cfa: r13 8 + .ra: .cfa 8 - ^", ".cfa: sp 16 + .ra: 1073742080 r11: 111 fp: 222",
                                ".cfa: sp 16 - .ra: lr", ".cfa: 4294967296 .ra: 1073742080"],
